@@ -95,6 +95,11 @@ pub fn gen_license(s: &mut Src) -> License {
 pub fn gen_profile(s: &mut Src, nla: bool) -> ServerProfile {
     let selected = if nla && s.bool() { 2 } else { 1 };
     let rounds = 1 + s.small(3);
+    // ignorable data PDUs in front of the server's finalization PDUs (see ServerProfile::finalization_noise)
+    // (only the Set Error Info PDU, which the client negotiates with RNS_UD_CS_SUPPORT_ERRINFO_PDU, in a frame of its own: kind 0.
+    // Save Session Info in front of the font-map, and a Set Error Info packed into the frame of a finalization PDU, end the
+    // unchanged tree's connection attempt; whether a conforming server does either is not settled by the property text)
+    let noise = if s.chance(56) { s.u8() & 0x0F } else { 0 };
     ServerProfile {
         selected_protocol: selected,
         user_id: gen_user_id(s),
@@ -110,5 +115,6 @@ pub fn gen_profile(s: &mut Src, nla: bool) -> ServerProfile {
         post_activation: Vec::new(),
         pack_deactivate: s.pick(&[0u8, 0, 0, 1, 2, 3]),
         pre_license: Vec::new(),
+        finalization_noise: noise,
     }
 }
